@@ -77,7 +77,7 @@ class Case:
     def __init__(self, op, args, mop=None, sop=None, margs=None, sargs=None, meta=None, tag=""):
         self.op = op
         self.args = list(args)
-        self.mop = mop if mop is not None else op
+        self.mop = mop if mop is not None else op   # "" = do not run the model on this case
         self.sop = sop
         self.margs = margs
         self.sargs = sargs
